@@ -134,10 +134,9 @@ func (e *Exec) step(fr *frame, st *State, instr ssa.Instruction) {
 	case *ssa.MakeMap:
 		mt := in.Type().Underlying().(*types.Map)
 		r := e.alloc(st)
-		md, _, mc := e.mapHeaps(mt)
+		md, _ := e.mapHeaps(mt)
 		ks := e.ctx.sortOf(mt.Key())
 		e.setHeap(st, md, sto(e.heapTerm(st, md), r, fmt.Sprintf("((as const %s) false)", arraySort(ks, sBool))))
-		e.setHeap(st, mc, sto(e.heapTerm(st, mc), r, "0"))
 		e.set(fr, in, Val{T: r, S: sInt})
 	case *ssa.MakeSlice:
 		l := e.tval(fr, st, in.Len)
@@ -326,15 +325,15 @@ func (e *Exec) stepIndexAddr(fr *frame, st *State, in *ssa.IndexAddr) {
 }
 
 func (e *Exec) mapHas(st *State, mt *types.Map, m, k string) string {
-	md, _, _ := e.mapHeaps(mt)
+	md, _ := e.mapHeaps(mt)
 	return and(not(eq(m, "0")), sel(sel(e.heapTerm(st, md), m), k))
 }
 func (e *Exec) mapLen(st *State, mt *types.Map, m string) string {
-	_, _, mc := e.mapHeaps(mt)
-	return ite(eq(m, "0"), "0", sel(e.heapTerm(st, mc), m))
+	md, _ := e.mapHeaps(mt)
+	return ite(eq(m, "0"), "0", app(e.cardFn(e.ctx.sortOf(mt.Key())), sel(e.heapTerm(st, md), m)))
 }
 func (e *Exec) mapGet(st *State, mt *types.Map, m, k string) string {
-	_, mv, _ := e.mapHeaps(mt)
+	_, mv := e.mapHeaps(mt)
 	return ite(e.mapHas(st, mt, m, k), sel(sel(e.heapTerm(st, mv), m), k), e.ctx.zero(mt.Elem()))
 }
 
@@ -357,25 +356,7 @@ func (e *Exec) stepLookup(fr *frame, st *State, in *ssa.Lookup) {
 	}
 }
 
-// mapCardFacts: cardinality is non-negative, zero iff the domain is empty
-// (one direction instantiated per use), and a present key means card >= 1.
-func (e *Exec) mapCardFacts(st *State, mt *types.Map, m string) {
-	md, _, mc := e.mapHeaps(mt)
-	card := sel(e.heapTerm(st, mc), m)
-	ks := e.ctx.sortOf(mt.Key())
-	dom := sel(e.heapTerm(st, md), m)
-	key := "card:" + card + ":" + dom
-	if e.cardDone[key] {
-		return
-	}
-	e.cardDone[key] = true
-	e.ctx.assume(le("0", card))
-	e.ctx.assume(fmt.Sprintf("(forall ((k %s)) (! (=> (select %s k) (>= %s 1)) :pattern ((select %s k))))", ks, dom, card, dom))
-	// card > 0 ==> some key present (skolem witness)
-	wit := e.ctx.fresh("witness", ks)
-	e.ctx.assume(imp(lt("0", card), sel(dom, wit)))
-	e.trust("finite-map cardinality facts: card >= 0; key present ==> card >= 1; card > 0 ==> some key present")
-}
+func (e *Exec) mapCardFacts(st *State, mt *types.Map, m string) {}
 
 func (e *Exec) stepMapUpdate(fr *frame, st *State, in *ssa.MapUpdate) {
 	m := e.tval(fr, st, in.Map)
@@ -387,28 +368,22 @@ func (e *Exec) stepMapUpdate(fr *frame, st *State, in *ssa.MapUpdate) {
 }
 
 func (e *Exec) mapStore(fr *frame, st *State, mt *types.Map, m, k, v string, pos token.Pos) {
-	md, mv, mc := e.mapHeaps(mt)
-	e.mapCardFacts(st, mt, m)
+	md, mv := e.mapHeaps(mt)
 	e.frameCheck(fr, st, mv, m, pos)
 	e.rangeStable(fr, st, mv, m, pos)
-	had := sel(sel(e.heapTerm(st, md), m), k)
-	mdt, mvt, mct := e.heapTerm(st, md), e.heapTerm(st, mv), e.heapTerm(st, mc)
-	e.setHeap(st, mc, sto(mct, m, add(sel(mct, m), ite(had, "0", "1"))))
+	mdt, mvt := e.heapTerm(st, md), e.heapTerm(st, mv)
 	e.setHeap(st, md, sto(mdt, m, sto(sel(mdt, m), k, "true")))
 	e.setHeap(st, mv, sto(mvt, m, sto(sel(mvt, m), k, v)))
 }
 
 func (e *Exec) mapDelete(fr *frame, st *State, mt *types.Map, m, k string, pos token.Pos) {
-	md, mv, mc := e.mapHeaps(mt)
-	e.mapCardFacts(st, mt, m)
+	md, mv := e.mapHeaps(mt)
 	nonnil := not(eq(m, "0"))
 	s2 := st.clone()
 	s2.pc = and(st.pc, nonnil)
 	e.frameCheck(fr, s2, mv, m, pos)
 	e.rangeStable(fr, s2, mv, m, pos)
-	had := sel(sel(e.heapTerm(st, md), m), k)
-	mdt, mct := e.heapTerm(st, md), e.heapTerm(st, mc)
-	e.setHeap(st, mc, ite(nonnil, sto(mct, m, sub(sel(mct, m), ite(had, "1", "0"))), mct))
+	mdt := e.heapTerm(st, md)
 	e.setHeap(st, md, ite(nonnil, sto(mdt, m, sto(sel(mdt, m), k, "false")), mdt))
 }
 
@@ -499,7 +474,7 @@ func (e *Exec) stepNext(fr *frame, st *State, in *ssa.Next) {
 		return
 	}
 	mt := rng.X.Type().Underlying().(*types.Map)
-	md, _, _ := e.mapHeaps(mt)
+	md, _ := e.mapHeaps(mt)
 	ks := e.ctx.sortOf(mt.Key())
 	m := it.T
 	vis := st.ghost[name+"$visited"]
@@ -523,7 +498,7 @@ func (e *Exec) stepNext(fr *frame, st *State, in *ssa.Next) {
 	stable := true
 	if stable {
 		// visited is a subset of the domain, n counts it
-		e.ctx.assume(imp(st.pc, and(le("0", n.T), le(n.T, e.mapLen(st, mt, m)),
+		e.ctx.assume(imp(st.pc, and(le("0", n.T), le(n.T, e.mapLen(st, mt, m)), eq(n.T, app(e.cardFn(ks), vis.T)),
 			fmt.Sprintf("(forall ((x %s)) (! (=> (select %s x) %s) :pattern ((select %s x))))", ks, vis.T, e.mapHas(st, mt, m, "x"), vis.T))))
 		e.ctx.assume(imp(and(st.pc, okc), and(e.mapHas(st, mt, m, k), not(sel(vis.T, k)), lt(n.T, e.mapLen(st, mt, m)))))
 		e.ctx.assume(imp(and(st.pc, not(okc)), and(eq(n.T, e.mapLen(st, mt, m)),
@@ -665,7 +640,7 @@ func (e *Exec) rangeStable(fr *frame, st *State, mv, m string, pos token.Pos) {
 		if !ok {
 			continue
 		}
-		_, rmv, _ := e.mapHeaps(mt)
+		_, rmv := e.mapHeaps(mt)
 		if rmv != mv {
 			continue
 		}
